@@ -395,9 +395,12 @@ func checkBatchLoop(w *World, r *Report, pr *procRoles) {
 	again := g.reach(g.succ[mainN], iter, nil)[mainN]
 	// (b) from the failed pill assertion of this element, every path to the next iteration or a return passes the delivery
 	notPill := []Edge{}
+	mainArgs := main.Common().Args
+	mainElem := w.pathOf(mainArgs[len(mainArgs)-1])
 	_, neg := g.CondEdges(func(v ssa.Value) (bool, bool) {
 		p := w.pathOf(v)
-		return true, strings.HasPrefix(p, "assert<actor.poisonPill>(P1[") && strings.HasSuffix(p, "#1")
+		// the pill test of the element this iteration delivers (not a test on some other element, e.g. in the drain loop)
+		return true, p == "assert<actor.poisonPill>("+mainElem+".Msg)#1"
 	})
 	notPill = neg
 	skipped := len(notPill) == 0
